@@ -353,7 +353,7 @@ def oracle_history(ctx, impl, furls):
     n = 0
     for i, s in enumerate(furls):
         mutation = impl.MUTATIONS[i % len(impl.MUTATIONS)]
-        as_bytes = (i % 4 == 3)
+        as_bytes = ((i // len(impl.MUTATIONS)) % 2 == 1)
         subject = s + "~h%d" % i                   # still a FURL if s was one; unique per case
         try:
             subject.encode("utf-8")
@@ -421,6 +421,13 @@ def timing(ctx, impl):
                      % (what_fn, limit, name, n, [(p["n"], round(p["t"], 4)) for p in pts]),
                      replay=dict(family=name, n=n, points=pts, python="see harness/c20_impl.py FAMILIES[%r]" % name))
             table[name] = dict(timeout_at=n)
+            continue
+        if len(pts) == 1 and pts[0]["t"] > 0.3:
+            # the smallest size already exceeds the per-call cap: nothing to compare it with, and no need to
+            ctx.fail(sig, "%s takes %.2f s of CPU on a %d-character input of family %s"
+                     % (what_fn, pts[0]["t"], pts[0]["length"], name),
+                     replay=dict(family=name, points=pts, input_python="harness.c20_impl.FAMILIES[%r][1](%d)" % (name, pts[0]["n"])))
+            table[name] = dict(n_small=pts[0]["length"], t_small=round(pts[0]["t"], 4))
             continue
         if len(pts) < 2:
             ctx.fail("harness-exception", "timing probe %s produced %d points" % (name, len(pts)), has_input=False)
